@@ -148,9 +148,9 @@ Section Inv.
     destruct (split_known (ptree p) hist) as [nw parent] eqn:S.
     destruct nw as [|n0 nw']; [inversion H; subst; auto|].
     destruct (negb _ && illegal_conflict _ _ _ _ _ _) eqn:C.
-    - destruct (negb res); [inversion H; subst; auto|].
+    - destruct res as [f|]; [|inversion H; subst; auto].
       destruct (dcur (update_flags (ptree p))) as [l|]; [|inversion H; subst; auto].
-      destruct (local_wins _ _ _ _).
+      destruct (f _ _ _ _ _ _) as [| |mb].
       + destruct (local_wins_rewrite mkdig l _ _ hist) as [[h' d'] b'] eqn:LW.
         pose proof (local_wins_rewrite_ghist _ _ _ _ _ _ _ G LW) as G'.
         destruct (tombstone_local mkdig p l _) as [p1|] eqn:TL; [|inversion H; subst; auto].
@@ -162,6 +162,11 @@ Section Inv.
         pose proof (tombstone_local_inv _ _ _ _ T TL) as T1.
         destruct (finish_put p1 hist del b) as [p2 st2] eqn:F.
         pose proof (finish_put_inv _ _ _ _ _ _ T1 G F) as T2.
+        destruct st2; inversion H; subst; auto.
+      + destruct (tombstone_local mkdig p l _) as [p1|] eqn:TL; [|inversion H; subst; auto].
+        pose proof (tombstone_local_inv _ _ _ _ T TL) as T1.
+        destruct (finish_put p1 (mkid (hd_error hist) mb :: hist) del mb) as [p2 st2] eqn:F.
+        pose proof (finish_put_inv _ _ _ _ _ _ T1 (ghist_ext _ _ G) F) as T2.
         destruct st2; inversion H; subst; auto.
     - eapply finish_put_inv; eauto.
   Qed.
@@ -181,13 +186,15 @@ Section Inv.
   Lemma dstep_inv : forall v o, dinv v -> dinv (fst (dstep mkdig v o)).
   Proof.
     intros [a p] o [Ta Tp]. cbn [fst snd] in *.
-    destruct o as [sd d b | sd d | sd d b | d | d]; cbn [dstep].
+    destruct o as [sd d b | sd d | sd d b | d | d | f d]; cbn [dstep].
     - destruct sd; split; cbn; auto using edit_inv.
     - destruct sd; split; cbn; auto using delete_inv.
     - destruct sd; split; cbn; auto using resurrect_inv.
-    - cbn [fst snd]. destruct (transfer mkdig false a p) as [q st] eqn:E. split; cbn [fst snd]; auto.
+    - cbn [fst snd]. destruct (transfer mkdig None a p) as [q st] eqn:E. split; cbn [fst snd]; auto.
       change q with (fst (q, st)). rewrite <- E. apply transfer_inv; auto.
-    - cbn [fst snd]. destruct (transfer mkdig true p a) as [q st] eqn:E. split; cbn [fst snd]; auto.
+    - cbn [fst snd]. destruct (transfer mkdig (Some default_policy) p a) as [q st] eqn:E. split; cbn [fst snd]; auto.
+      change q with (fst (q, st)). rewrite <- E. apply transfer_inv; auto.
+    - cbn [fst snd]. destruct (transfer mkdig (Some f) p a) as [q st] eqn:E. split; cbn [fst snd]; auto.
       change q with (fst (q, st)). rewrite <- E. apply transfer_inv; auto.
   Qed.
 
